@@ -58,14 +58,12 @@ def dirOf (fs : FS) (site : Site) (p : Bytes) : Option Entry :=
   | .error _ => none
 
 def itemOk (fs : FS) (site : Site) (d : Entry) (top : List Bytes) (it : Item) : Bool :=
-  match it.name.drop top.length with
-  | [] => false
-  | rel =>
-    top.isPrefixOf it.name &&
-    fs.any fun e => e.path = d.path ++ rel && !hidden fs site e.ino &&
+  let rel := it.name.drop top.length
+  decide (rel ≠ []) && top.isPrefixOf it.name &&
+    fs.any fun e => decide (e.path = d.path ++ rel) && !hidden fs site e.ino &&
       (match it.content with
        | none => e.isDir
-       | some ino => !e.isDir && e.ino = ino && regularInRoot fs site ino)
+       | some ino => !e.isDir && decide (e.ino = ino) && regularInRoot fs site ino)
 
 def verdict (fs : FS) (site : Site) (target acceptEncoding : Bytes) (obs : Resp) : String :=
   match obs with
